@@ -6,7 +6,9 @@ sys.path.insert(0, os.path.join(V, "sa")); sys.path.insert(0, os.path.join(V, "s
 import extract, runner, selftest
 diffs = sys.argv[1:] or sorted(glob.glob(os.path.join(V, "selftest", "*", "benign*.diff")))
 props = [f"C{i:02d}" for i in range(1, 20)]
-if os.environ.get("SKIP_C19"):
+if os.environ.get("ONLY"):
+    props = [p for p in props if p in os.environ["ONLY"].split(",")]
+if os.environ.get("SKIP_C19") and "C19" in props:
     props.remove("C19")      # C19 drives cargo in shared target dirs: skip when another scratch run is active
 repo = os.path.join(selftest.SCRATCH + "-benign", "repo")
 os.makedirs(repo, exist_ok=True)
